@@ -35,7 +35,11 @@ import (
 
 func init() { registerExtra("C01", runR01_11) }
 
-type ownSummary struct{ onTrue, onFalse, onOther bool }
+type ownSummary struct {
+	onTrue, onFalse, onOther bool
+	// which kinds of results the function can return
+	canTrue, canFalse, canOther bool
+}
 
 type ownAnalysis struct {
 	c        *kit.Ctx
@@ -233,6 +237,7 @@ func (a *ownAnalysis) summary(g *ssa.Function, entry bool) *ownSummary {
 	// split results of bool calls: value -> (state if true, state if false)
 	type split struct{ t, f bool }
 	splits := map[ssa.Value]split{}
+	full := map[ssa.Value]*ownSummary{}
 	// reverse postorder: predecessors (other than back edges) come first
 	var order []*ssa.BasicBlock
 	{
@@ -290,6 +295,7 @@ func (a *ownAnalysis) summary(g *ssa.Function, entry bool) *ownSummary {
 				}
 				s := a.summary(h, st)
 				splits[call] = split{s.onTrue, s.onFalse}
+				full[call] = s
 				st = s.onTrue && s.onFalse && s.onOther
 			}
 		}
@@ -336,6 +342,25 @@ func (a *ownAnalysis) summary(g *ssa.Function, entry bool) *ownSummary {
 			}
 		}
 		return true
+	}
+	pureAfter := func(b *ssa.BasicBlock, callv ssa.Value) bool {
+		after := false
+		for _, ins := range b.Instrs {
+			if v, ok := ins.(ssa.Value); ok && v == callv {
+				after = true
+				continue
+			}
+			if !after {
+				continue
+			}
+			if a.isRegain(ins) || a.isHandover(ins) || a.isRelease(ins) {
+				return false
+			}
+			if c2, ok := ins.(*ssa.Call); ok && a.callee(c2) != nil {
+				return false
+			}
+		}
+		return after
 	}
 	edgeState := func(b, succ *ssa.BasicBlock, out bool) bool {
 		if len(b.Instrs) == 0 {
@@ -400,8 +425,28 @@ func (a *ownAnalysis) summary(g *ssa.Function, entry bool) *ownSummary {
 			if v, isC := returnedConst(ret); isC {
 				if v {
 					sum.onTrue = sum.onTrue && out
+					sum.canTrue = true
 				} else {
 					sum.onFalse = sum.onFalse && out
+					sum.canFalse = true
+				}
+				continue
+			}
+			// `return helper(...)`: the result kinds and their states are the helper's
+			rv := unspill(ret)
+			if hs, ok := full[rv]; ok && pureAfter(b, rv) {
+				if hs.canTrue {
+					sum.onTrue = sum.onTrue && hs.onTrue
+					sum.canTrue = true
+				}
+				if hs.canFalse {
+					sum.onFalse = sum.onFalse && hs.onFalse
+					sum.canFalse = true
+				}
+				if hs.canOther {
+					sum.onTrue = sum.onTrue && hs.onOther
+					sum.onFalse = sum.onFalse && hs.onOther
+					sum.canTrue, sum.canFalse = true, true
 				}
 				continue
 			}
@@ -421,8 +466,10 @@ func (a *ownAnalysis) summary(g *ssa.Function, entry bool) *ownSummary {
 					}
 					if v {
 						sum.onTrue = sum.onTrue && po
+						sum.canTrue = true
 					} else {
 						sum.onFalse = sum.onFalse && po
+						sum.canFalse = true
 					}
 				}
 				if all {
@@ -431,6 +478,7 @@ func (a *ownAnalysis) summary(g *ssa.Function, entry bool) *ownSummary {
 			}
 		}
 		sum.onOther = sum.onOther && out
+		sum.canOther = true
 		if len(ret.Results) == 1 {
 			// unknown boolean: may be either
 			sum.onTrue = sum.onTrue && out
@@ -474,4 +522,25 @@ func returnedConst(ret *ssa.Return) (val, ok bool) {
 		}
 	}
 	return false, false
+}
+
+// unspill returns the value a return hands back, looking through the result
+// cell of functions with defers (`*r = v; rundefers; t = *r; return t`).
+func unspill(ret *ssa.Return) ssa.Value {
+	v := ret.Results[0]
+	ld, isLoad := v.(*ssa.UnOp)
+	if !isLoad || ld.Op != token.MUL {
+		return v
+	}
+	cell, isAlloc := ld.X.(*ssa.Alloc)
+	if !isAlloc {
+		return v
+	}
+	instrs := ret.Block().Instrs
+	for i := len(instrs) - 1; i >= 0; i-- {
+		if st, isStore := instrs[i].(*ssa.Store); isStore && st.Addr == ssa.Value(cell) {
+			return st.Val
+		}
+	}
+	return v
 }
